@@ -360,3 +360,306 @@ Proof.
     rewrite <- (firstn_skipn (start_index a old) a) in Hall. apply Forall_app in Hall. tauto.
   - now rewrite Hnone.
 Qed.
+
+(* ------------------------------------------------------------------ *)
+(* the sort module                                                     *)
+
+Lemma value_eqb_eq a b : value_eqb a b = true <-> a = b.
+Proof.
+  destruct a, b; cbn [value_eqb]; split; intros H; try discriminate; try reflexivity.
+  - f_equal. lia.
+  - inversion H. lia.
+  - f_equal. lia.
+  - inversion H. lia.
+Qed.
+
+Lemma value_eqb_refl a : value_eqb a a = true.
+Proof. now apply value_eqb_eq. Qed.
+
+Lemma upd_length {A} (l : list A) : forall i x, length (upd i x l) = length l.
+Proof. induction l as [|y r IH]; intros [|i] x; cbn [upd length]; try reflexivity. now rewrite IH. Qed.
+
+Lemma upd_same (l : list Z) : forall i, nth i l 0 = nth i l 0 -> upd i (nth i l 0) l = l.
+Proof.
+  induction l as [|y r IH]; intros [|i] _; cbn [upd nth]; try reflexivity. f_equal. now apply IH.
+Qed.
+
+Lemma upd_map {A B} (f : A -> B) (l : list A) : forall i x, map f (upd i x l) = upd i (f x) (map f l).
+Proof. induction l as [|y r IH]; intros [|i] x; cbn [upd map]; try reflexivity. now rewrite IH. Qed.
+
+Lemma upd_perm (l : list Z) : forall i x,
+  (i < length l)%nat -> Permutation (upd i x l) (x :: remove_one (nth i l 0) l).
+Proof.
+  induction l as [|y r IH]; intros i x Hi; [cbn in Hi; lia|].
+  destruct i as [|k]; cbn [upd nth remove_one].
+  - rewrite Z.eqb_refl. apply Permutation_refl.
+  - cbn [length] in Hi. assert (Hk : (k < length r)%nat) by lia.
+    specialize (IH k x Hk).
+    destruct (y =? nth k r 0) eqn:E.
+    + assert (Hy : y = nth k r 0) by lia.
+      assert (Hr : Permutation r (nth k r 0 :: remove_one (nth k r 0) r)).
+      { apply remove_one_perm. now apply nth_In. }
+      eapply perm_trans; [apply perm_skip; exact IH|].
+      eapply perm_trans; [apply perm_swap|]. apply perm_skip.
+      rewrite Hy. apply Permutation_sym. exact Hr.
+    + eapply perm_trans; [apply perm_skip; exact IH | apply perm_swap].
+Qed.
+
+Lemma remove_one_perm_compat x l l' :
+  In x l -> Permutation l l' -> Permutation (remove_one x l) (remove_one x l').
+Proof.
+  intros Hin Hp. apply (Permutation_cons_inv (a := x)).
+  eapply perm_trans; [apply Permutation_sym, remove_one_perm, Hin|].
+  eapply perm_trans; [exact Hp|]. apply remove_one_perm. eapply Permutation_in; eassumption.
+Qed.
+
+(* incremental update = sorting again *)
+Lemma replace_isort vs i new :
+  (i < length vs)%nat -> nth i vs 0 <> new ->
+  sort_replace (isort vs) (nth i vs 0) new = SR_ok (isort (upd i new vs)).
+Proof.
+  intros Hi Hne.
+  assert (Hin : In (nth i vs 0) vs) by now apply nth_In.
+  assert (Hin' : In (nth i vs 0) (isort vs)).
+  { eapply Permutation_in; [apply Permutation_sym, isort_perm | exact Hin]. }
+  destruct (replace_ok (isort vs) (nth i vs 0) new) as (a' & H1 & H2 & H3).
+  { apply sorted_ss, isort_ss. }
+  { exact Hin'. }
+  { exact Hne. }
+  rewrite H1. f_equal. apply isort_unique; [now apply sorted_ss|].
+  eapply perm_trans; [exact H3|].
+  eapply perm_trans; [|apply Permutation_sym, upd_perm, Hi].
+  apply perm_skip. apply remove_one_perm_compat; [exact Hin' | apply isort_perm].
+Qed.
+
+Lemma write_outputs_spec s : forall k outs,
+  length outs = length s ->
+  write_outputs k outs s = (map VInt s, diff_rows k outs (map VInt s)).
+Proof.
+  induction s as [|x s IH]; intros k [|o outs] Hl; cbn in Hl; try lia; [reflexivity|].
+  cbn [write_outputs map diff_rows]. rewrite IH by lia.
+  destruct (value_eqb o (VInt x)) eqn:E.
+  - apply value_eqb_eq in E. now subst.
+  - reflexivity.
+Qed.
+
+Lemma diff_rows_same a : forall k, diff_rows k a a = [].
+Proof. induction a as [|x a IH]; intros k; cbn [diff_rows]; [reflexivity|]. now rewrite value_eqb_refl, IH. Qed.
+
+(* the rows listed by diff_rows are exactly those whose value differs *)
+Lemma diff_rows_rows (a : list value) : forall b j k,
+  length a = length b ->
+  (In k (map fst (diff_rows j a b)) <->
+   (j <= k)%nat /\ (k - j < length a)%nat /\ nth (k - j) a VNull <> nth (k - j) b VNull).
+Proof.
+  induction a as [|x a IH]; intros [|y b] j k Hl; cbn in Hl; try lia.
+  - cbn. split; [intros [] | intros (_ & H & _); lia].
+  - cbn [diff_rows length].
+    assert (Htl : In k (map fst (diff_rows (S j) a b)) <->
+                  (S j <= k)%nat /\ (k - S j < length a)%nat /\
+                  nth (k - S j) a VNull <> nth (k - S j) b VNull) by (apply IH; lia).
+    destruct (value_eqb x y) eqn:E.
+    + rewrite Htl. apply value_eqb_eq in E. subst y. split.
+      * intros (H1 & H2 & H3). repeat split; try lia.
+        replace (k - j)%nat with (S (k - S j)) by lia. exact H3.
+      * intros (H1 & H2 & H3). destruct (Nat.eq_dec k j) as [->|Hkj].
+        -- rewrite Nat.sub_diag in H3. cbn in H3. congruence.
+        -- repeat split; try lia. replace (k - j)%nat with (S (k - S j)) in H3 by lia. exact H3.
+    + cbn [map fst In]. rewrite Htl. split.
+      * intros [Hk|(H1 & H2 & H3)].
+        -- subst k. rewrite Nat.sub_diag. repeat split; try lia. cbn. intros ->.
+           rewrite value_eqb_refl in E. discriminate.
+        -- repeat split; try lia. replace (k - j)%nat with (S (k - S j)) by lia. exact H3.
+      * intros (H1 & H2 & H3). destruct (Nat.eq_dec k j) as [->|Hkj]; [now left|].
+        right. repeat split; try lia. replace (k - j)%nat with (S (k - S j)) in H3 by lia. exact H3.
+Qed.
+
+Lemma isort_repeat0 n : isort (repeat 0 n) = repeat 0 n.
+Proof.
+  induction n as [|n IH]; [reflexivity|]. cbn [repeat isort]. rewrite IH.
+  destruct n; reflexivity.
+Qed.
+
+(* state invariant of struct sort *)
+Definition minv (n : nat) (st : sortmod) : Prop :=
+  length (m_values st) = n /\
+  m_sorted st = isort (m_values st) /\
+  (if m_copied st then m_outputs st = map VInt (m_sorted st)
+   else m_outputs st = repeat VNull n /\ m_values st = repeat 0 n).
+
+Lemma minv_init n : minv n (sm_init n).
+Proof.
+  unfold minv, sm_init; cbn. repeat split.
+  - apply repeat_length.
+  - now rewrite isort_repeat0.
+Qed.
+
+Lemma map_to_i64_vint l : map to_i64 (map VInt l) = l.
+Proof. rewrite map_map. cbn [to_i64]. apply map_id. Qed.
+
+Lemma map_repeat {A B} (f : A -> B) x n : map f (repeat x n) = repeat (f x) n.
+Proof. induction n; cbn; [reflexivity | now f_equal]. Qed.
+
+Lemma minv_rows n st : minv n st -> rows_of st = m_sorted st.
+Proof.
+  unfold minv, rows_of. intros (Hl & Hs & Ho).
+  destruct (m_copied st).
+  - rewrite Ho. apply map_to_i64_vint.
+  - destruct Ho as (Ho & Hv). rewrite Ho, Hs, Hv, isort_repeat0. apply map_repeat.
+Qed.
+
+Lemma minv_outputs_length n st : minv n st -> length (m_outputs st) = n.
+Proof.
+  unfold minv. intros (Hl & Hs & Ho). destruct (m_copied st).
+  - rewrite Ho, map_length, Hs, isort_length. exact Hl.
+  - destruct Ho as (Ho & _). rewrite Ho. apply repeat_length.
+Qed.
+
+(* one callback: never fails for an existing input; keeps the invariant; the writes are exactly
+   the rows whose value differs (diff_rows, see diff_rows_rows) *)
+Lemma step_ok n st i v :
+  minv n st -> (i < n)%nat ->
+  exists st' ws, input_changed st i v = M_ok st' ws /\ minv n st' /\
+    m_values st' = upd i (to_i64 v) (m_values st) /\
+    m_sorted st' = isort (m_values st') /\
+    ws = diff_rows 0 (m_outputs st) (m_outputs st').
+Proof.
+  intros Hinv Hi. assert (Hol := minv_outputs_length _ _ Hinv).
+  destruct Hinv as (Hl & Hs & Ho).
+  unfold input_changed. destruct (Nat.leb (length (m_values st)) i) eqn:Eb.
+  { apply Nat.leb_le in Eb. lia. }
+  destruct (nth i (m_values st) 0 =? to_i64 v) eqn:Eq.
+  - exists st, []. assert (Hn : nth i (m_values st) 0 = to_i64 v) by lia.
+    repeat split; try assumption.
+    + rewrite <- Hn. symmetry. now apply upd_same.
+    + now rewrite diff_rows_same.
+  - assert (Hne : nth i (m_values st) 0 <> to_i64 v) by lia.
+    set (values' := upd i (to_i64 v) (m_values st)).
+    assert (Hr : (if m_copied st then sort_replace (m_sorted st) (nth i (m_values st) 0) (to_i64 v)
+                  else SR_ok (isort values')) = SR_ok (isort values')).
+    { destruct (m_copied st); [|reflexivity]. rewrite Hs. apply replace_isort; [lia | exact Hne]. }
+    rewrite Hr.
+    rewrite write_outputs_spec.
+    2:{ rewrite isort_length. unfold values'. rewrite upd_length. lia. }
+    eexists. eexists. split; [reflexivity|]. cbn [m_values m_sorted m_copied m_outputs].
+    repeat split.
+    cbn [m_values]. unfold values'. rewrite upd_length. exact Hl.
+Qed.
+
+(* the whole history *)
+Lemma run_ok n : forall h st ins,
+  minv n st -> length ins = n -> m_values st = map to_i64 ins ->
+  Forall (fun iv => (fst iv < n)%nat) h ->
+  exists st', sm_run st h = Some st' /\ minv n st' /\
+              m_values st' = map to_i64 (inputs_after ins h).
+Proof.
+  induction h as [|[i v] h IH]; intros st ins Hinv Hl Hv Hall; cbn [sm_run inputs_after].
+  - exists st. split; [reflexivity|]. split; assumption.
+  - apply Forall_cons_iff in Hall. destruct Hall as (Hi & Hrest). cbn [fst] in Hi.
+    destruct (step_ok n st i v Hinv Hi) as (st1 & ws & Hstep & Hinv1 & Hv1 & _ & _).
+    rewrite Hstep. apply IH; try assumption.
+    + now rewrite upd_length.
+    + rewrite Hv1, Hv. symmetry. apply upd_map.
+Qed.
+
+Theorem module_ok n h :
+  Forall (fun iv => (fst iv < n)%nat) h ->
+  exists st, sm_run (sm_init n) h = Some st /\
+    m_values st = map to_i64 (inputs_after (repeat VNull n) h) /\
+    m_sorted st = isort (m_values st) /\
+    rows_of st = m_sorted st.
+Proof.
+  intros Hall.
+  destruct (run_ok n h (sm_init n) (repeat VNull n)) as (st & Hr & Hinv & Hv).
+  - apply minv_init.
+  - apply repeat_length.
+  - cbn. now rewrite map_repeat.
+  - exact Hall.
+  - exists st. repeat split; try assumption.
+    + now destruct Hinv as (_ & Hs & _).
+    + now apply minv_rows with (n := n).
+Qed.
+
+(* ... and every single callback along the way writes exactly the rows that differ *)
+Theorem module_step_writes n h i v :
+  Forall (fun iv => (fst iv < n)%nat) h -> (i < n)%nat ->
+  exists st st' ws, sm_run (sm_init n) h = Some st /\ input_changed st i v = M_ok st' ws /\
+    ws = diff_rows 0 (m_outputs st) (m_outputs st') /\
+    length (m_outputs st) = length (m_outputs st') /\
+    rows_of st' = isort (upd i (to_i64 v) (m_values st)).
+Proof.
+  intros Hall Hi.
+  destruct (run_ok n h (sm_init n) (repeat VNull n)) as (st & Hr & Hinv & Hv).
+  - apply minv_init.
+  - apply repeat_length.
+  - cbn. now rewrite map_repeat.
+  - exact Hall.
+  - destruct (step_ok n st i v Hinv Hi) as (st' & ws & Hstep & Hinv' & Hv' & Hs' & Hws).
+    exists st, st', ws. repeat split; try assumption.
+    + rewrite (minv_outputs_length _ _ Hinv), (minv_outputs_length _ _ Hinv'). reflexivity.
+    + rewrite (minv_rows _ _ Hinv'), Hs', Hv'. reflexivity.
+Qed.
+
+Theorem rows_ok_always n h :
+  Forall (fun iv => (fst iv < n)%nat) h ->
+  exists st, sm_run (sm_init n) h = Some st /\
+    Sorted Z.le (rows_of st) /\
+    Permutation (rows_of st) (map to_i64 (inputs_after (repeat VNull n) h)).
+Proof.
+  intros Hall. destruct (module_ok n h Hall) as (st & Hr & Hv & Hs & Hrows).
+  exists st. split; [exact Hr|]. rewrite Hrows, Hs. split.
+  - apply sorted_ss, isort_ss.
+  - rewrite <- Hv. apply isort_perm.
+Qed.
+
+(* ------------------------------------------------------------------ *)
+(* the breakdown wiring of one CPU                                     *)
+
+Section Wiring.
+  Variables BODY UNKNOWN PROG : Z.
+
+  Notation select_tr := (select_tr BODY).
+  Notation select_idle := (select_idle PROG).
+  Notation cpu_event := (cpu_event BODY UNKNOWN PROG).
+  Notation bd_value := (bd_value BODY UNKNOWN PROG).
+
+  (* what mux0 / mux1 show when they are in step with their inputs *)
+  Definition tr_of (ss tt : value) : value :=
+    match select_tr ss tt with None => VInt UNKNOWN | Some false => ss | Some true => tt end.
+  Definition tri_of (tr idle : value) : value :=
+    match select_idle idle with Some false => tr | _ => idle end.
+
+  Lemma bd_value_tri tt ss idle : bd_value tt ss idle = tri_of (tr_of ss tt) idle.
+  Proof.
+    unfold SortDefs.bd_value, tri_of, tr_of, SortDefs.select_idle, SortDefs.select_tr, progressing, in_task_body.
+    destruct idle as [|i|]; try reflexivity.
+    destruct (i =? PROG); [|reflexivity].
+    destruct ss as [|s|]; try reflexivity.
+    destruct (s =? BODY); cbn [andb]; [|reflexivity]. destruct tt; reflexivity.
+  Qed.
+
+  (* invariant between two events: the sort module holds tri; either nothing ever reached this
+     CPU, or mux0 is in step with (ss, tt) and mux1 either never ran or is in step with (tr, idle) *)
+  Definition winv (st : wires) : Prop :=
+    w_sval st = to_i64 (w_tri st) /\
+    ((w_ss st = VNull /\ w_tt st = VNull /\ w_idle st = VNull /\ w_tr st = VNull /\ w_tri st = VNull /\
+      w_sel0 st = None /\ w_sel1 st = None)
+     \/
+     (w_sel0 st = select_tr (w_ss st) (w_tt st) /\ w_tr st = tr_of (w_ss st) (w_tt st) /\
+      ((w_idle st = VNull /\ w_tri st = VNull /\ w_sel1 st = None)
+       \/
+       (w_sel1 st = select_idle (w_idle st) /\ w_tri st = tri_of (w_tr st) (w_idle st))))).
+
+  Lemma winv_init : winv w_init.
+  Proof. unfold winv, w_init; cbn. split; [reflexivity|]. left. repeat split. Qed.
+
+  (* under the invariant the sort module holds the CPU's breakdown value *)
+  Lemma winv_value st : winv st -> w_sval st = bd_of BODY UNKNOWN PROG st.
+  Proof.
+    unfold winv, bd_of. intros (Hs & [H|H]).
+    - destruct H as (H1 & H2 & H3 & H4 & H5 & _). rewrite Hs, H5, H1, H2, H3. reflexivity.
+    - destruct H as (H0 & Htr & [H1|H1]).
+      + destruct H1 as (Hi & Ht & _). rewrite Hs, Ht, Hi. unfold SortDefs.bd_value. reflexivity.
+      + destruct H1 as (_ & Ht). rewrite Hs, Ht, Htr. now rewrite bd_value_tri.
+  Qed.
+End Wiring.
